@@ -1,7 +1,7 @@
 (* C05 -- Binomial schedules perform the minimal possible number of forward steps
    Property theorems only: each proof is one application of a lemma proved in Proofs/, followed by Print Assumptions. *)
 From Coq Require Import ZArith List Bool.
-From CS Require Inst GW2 RevCost BinomDP RevConv RevBridge4 RevolveRun RevolveGW Opt0Table GenLang3 GenMulti.
+From CS Require Inst GW2 RevCost BinomDP RevConv RevBridge4 RevolveRun RevolveGW Opt0Table GenLang3 GenMulti SeqGenSpec.
 From CS Require Import Actions NAdvance Multistage Exec Sched RunFacts Projections BasicInv MultistageRun AllocTotal TLBridge MixBridge.
 Import ListNotations.
 Open Scope Z_scope.
@@ -15,6 +15,18 @@ Theorem C05_multistage_forward_total : forall (N ram disk : Z) (tj : traj) (c : 
         is_exhausted s1 = true -> fwd_total (cnt (mx m)) = Inst.TC tj N (total c)).
 Proof. exact multistage_run. Qed.
 Print Assumptions C05_multistage_forward_total.
+
+(* THE SEQUENCE GENERATORS ARE THE SOURCE: SeqGenSpec.revolve_shape / disk_revolve_shape / periodic_shape are the Gallina functions harness/translate.py (SeqTr) renders from revolve(), disk_revolve() and periodic_disk_revolve() of hrevolve_sequences/ -- every sequence.insert(operation(..)) appends one operation, insert_sequence(f(..).shift(k)) a recursively built list, the loops become for_down / while_, reads of the tables tget / lget with IndexError; Gen/SeqGen.v re-translates the current source on every run and proves the result equal to these terms by conversion.  They are proved equal, for all arguments, to the extracted RevSeq.revolve / RevSeq.disk_revolve / the body of RevSeq.periodic_top, on which every theorem about the Revolve family is stated; this is the top-level call of the constructor (RevConv.sequence) read on the translated source.  Not translated: the tables (get_opt_0_table, get_opt_inf_table), mxrr_close_formula and the Sequence / Operation classes of basic_functions.py (their flattening, shift and remove_useless_wm are Ops.v) *)
+Module M_C05_revolve_sequence_is_source.
+Import SeqGenSpec.
+Theorem C05_revolve_sequence_is_source :
+  forall l cm uf ub : Z,
+         RevSeq.revolve_top l cm uf ub =
+         Actions.bind (RevSeq.get_opt_0_table l cm uf ub)
+           (fun t : list (list Z) => revolve_shape (Z.to_nat (2 * l + 4)) t uf l cm).
+Proof. exact (@SeqGenSpec.revolve_top_is_source). Qed.
+Print Assumptions C05_revolve_sequence_is_source.
+End M_C05_revolve_sequence_is_source.
 
 (* THE MODEL OF MultistageCheckpointSchedule IS THE SOURCE: GenMulti.multi_prog_model is the program (generator language GenLang3) that harness/translate.py produces from MultistageCheckpointSchedule._iterator, the nested helper write(n) inlined at its two call sites; Gen/MultistageGen.v re-translates the current source on every run and proves it equal to that term by conversion.  For every parameter tuple the constructor accepts, resuming that program request by request gives under EVERY history of next() and finalize(k) calls exactly the observations (outcome, n, r, max_n, is_exhausted) of the schedule object of Model/Sched.v (srun_ops: Sched.next / Sched.finalize on the Multistage machine) -- so the Multistage theorems of this file, stated on the extracted model, are theorems about the translated source.  (The unit total self._snapshots_in_ram + self._snapshots_on_disk is read as the length of the label tuple self._storage, which is what __init__ recounts them from; the allocation of the labels, allocate_snapshots, is tied by the correspondence.) *)
 Module M_C05_multistage_source_is_model.
